@@ -261,8 +261,27 @@ func (s *Sim) Lock(l interface {
 		s.mu.Lock()
 		free := s.free
 		s.mu.Unlock()
-		if free || s.CurTask() == s.root {
+		if free {
 			l.Lock()
+			return
+		}
+		if s.CurTask() == s.root {
+			// The root (oracle reads) takes locks directly. If a parked task
+			// holds this one (it parked inside a critical section, e.g. at a
+			// cache write), let that task run on until it lets go.
+			for i := 0; !l.TryLock(); i++ {
+				s.mu.Lock()
+				owner := s.owners[l]
+				s.mu.Unlock()
+				var tk *Ticket
+				if owner != nil {
+					tk = s.TicketOf(owner)
+				}
+				if tk == nil || i > 10000 {
+					panic("sim: the root needs a lock whose holder cannot be run")
+				}
+				s.Release(tk)
+			}
 			return
 		}
 		s.Park("lock", site, l, nil, nil)
